@@ -21,7 +21,7 @@ BIG_TEMPLATES = ["v%s c", "c%%%s", "o%s c", "q%s c", "t%s c", "l%s c", "l%%%s c"
                  "y1,%s c", "y%s,1 c", "p%s c", "PB(%s) c", "@%s c", "@1,%s c", "Tempo(%s) c", "Tempo=%s; c", "TempoChange(%s,120,4) c", "KeyShift(%s) c", "TrackKey(%s) c", "TimeBase=%s c1", "TimeBase(%s) c",
                  "Time(%s:1:1) c", "Time(1:%s:1) c", "Time(1:1:%s) c", "TIME(%s) c", "PlayFrom(%s:1:0) c", "TimeSignature(%s,4) TIME(2:1:0) c", "TimeSignature(4,%s) TIME(2:1:0) c",
                  "INT A=%s; A=A+1; PRINT(A) c", "INT A=%s; A=A-2; PRINT(A)", "INT A=%s; A=A*A; PRINT(A)", "INT A=%s; A++; PRINT(A)", "INT A=%s; A--; PRINT(A)", "PRINT(%s+1)", "PRINT(%s-2)", "PRINT(0-%s)", "PRINT(%s*3)", "PRINT(%s/-1)", "PRINT(%s%%-1)",
-                 "PRINT(Random(%s))", "PRINT(Random(1,%s))", "PRINT(MID({abc},%s,2))", "PRINT(MID({abc},1,%s))", "PRINT(CHR(%s))", "PRINT(HEX(%s))", "ARRAY A=(1,2) PRINT(A(%s))", "PRINT(ABS(%s))",
+                 "PRINT(Random(%s))", "PRINT(Random(1,%s))", "PRINT(Random(%s,0))", "PRINT(Random(%s,-5))", "INT A=Random(%s,5) PRINT(A)", "KeyFlag=(%s) c", "KeyFlag=(0,%s,0) c d", "o.onNote(%s) b", "o.onNote(%s) c- d", "o.onCycle(%s,1) c d e", "PRINT(MID({abc},%s,2))", "PRINT(MID({abc},1,%s))", "PRINT(CHR(%s))", "PRINT(HEX(%s))", "ARRAY A=(1,2) PRINT(A(%s))", "PRINT(ABS(%s))",
                  "v.onNote(%s) c", "q.onNote(%s) c", "t.onNote(%s) c", "o.onNote(%s) c", "l.onNote(%s) c", "v.Random(%s) c d", "t.Random(%s) c d", "q.Random(%s) c d", "o.Random(%s) c d", "v.onTime(0,%s,96) c",
                  "y1.onTime(%s,0,96) c", "p.onTime(0,%s,96) c", "PB.onTime(0,%s,96) c", "y1.Frequency(%s) y1.onTime(0,127,96) c", "y1.onNote(%s) c",
                  "Slur(%s) c&d e", "c&d,%s e", "BR(%s) c", "RPN(%s,1,1)", "RPN(1,%s,1)", "RPN(1,1,%s)", "NRPN(1,1,%s)", "M(%s)", "MasterVolume(%s)", "MasterBalance(%s)", "SysEx$=f0,%s,f7;",
@@ -83,7 +83,10 @@ def streams(tier, rng, P, only=None, cases=None):
                     # every index around the ends of an array or string, the empty array, indices computed in a loop
                     "Array A=(1,2,3) Print(A(3))", "ARRAY A=(1,2,3) PRINT(A(2)) PRINT(A(3)) PRINT(A(4)) PRINT(A(0)) PRINT(A(0-1))", "Array A=(60,64,67) FOR(Int I=0; I<=SizeOf(A); I++){ Int N=A(I) Print(N) }",
                     "ARRAY E=() PRINT(E(0)) PRINT(SizeOf(E))", "ARRAY A=(7) PRINT(A(1)) INT K=A(1) n(K)", "STR S={abc} PRINT(S(3)) PRINT(S(2)) PRINT(S(0))", "ARRAY A=(1,2) INT I=SizeOf(A) PRINT(A(I)) A(I)",
-                    "STR S={a} PRINT(S(1))", "FUNCTION F(){ F2() }", "F(1)", "RETURN(1)", "BREAK", "CONTINUE", "ELSE{c}", "IF(1)", "WHILE(1)", "FOR(", "FOR(;;){BREAK}", "#A #A", "#A={#?1} #A", "Rhythm{(", "Rhythm{Sub", "R{$}", "$", "$=", "v.onNote() c", "v.onNote(=) c",
+                    "STR S={a} PRINT(S(1))",
+                    # small negative counts and positions in the string built-ins
+                    "STR A={abcd};PRINT(MID(A,2,-1))", "PRINT(MID({abcd},3,-2)) PRINT(MID({abcd},4,-1)) PRINT(MID({abcd},4,-3))", "PRINT(MID({abcd},-1,2)) PRINT(MID({abcd},-3,-3)) PRINT(MID({abcd},0,-1))",
+                    "PRINT(MID({あいう},2,-1)) PRINT(MID({あいう},3,-2))", "PRINT(CHR(-1)) PRINT(CHR(-65)) PRINT(HEX(-1)) PRINT(HEX(-255))", "PRINT(REPLACE({abc},{},{x})) PRINT(REPLACE({},{a},{b}))", "FUNCTION F(){ F2() }", "F(1)", "RETURN(1)", "BREAK", "CONTINUE", "ELSE{c}", "IF(1)", "WHILE(1)", "FOR(", "FOR(;;){BREAK}", "#A #A", "#A={#?1} #A", "Rhythm{(", "Rhythm{Sub", "R{$}", "$", "$=", "v.onNote() c", "v.onNote(=) c",
                     "y1.onNote() c", "y.onTime c", "p.onTime() c", "PB.T c", "l.onNote() c", "o.onCycle() c", "t.onNote(1,) c", "q.Random() c", "v.onTime(1,2) c", "v.onTime(0,1,0) c", "M.onTime(0,127,0) c", "M.onTime(0,127,-5) c", "Slur(9) c&d e", "c& &d e", "n& c", "r& c",
                     "Sub{", "Div{c}-4", "{c}%0", "c%-5 d", "l%-9 c d", "r-1 c", "c,,,-999 d", "TIME(-5) c", "PlayFrom(-1) c", "PlayFrom(99:1:0) c", "? ? c",
                     "WHILE(1){ CONTINUE }", "INT I=0; WHILE(I<4){ IF(I==2){ CONTINUE } c I++ } d", "FOR(;;){ CONTINUE }", "WHILE(1){ IF(1){ CONTINUE } c }",
